@@ -55,7 +55,7 @@ class Case:
     dask_labels: bool = False
     scheduler: str = "sync"
     stream: str = ""
-    expected_kind: str = "array"   # container handed to flox: "array" (ndarray) | "list" | "index" (pandas.Index)
+    expected_kind: str = "array"   # container handed to flox: "array" (ndarray) | "list" | "index" (pandas.Index) | "range" (pandas.RangeIndex; c.expected is an arithmetic progression)
 
     def key(self):
         d = asdict(self)
@@ -144,6 +144,14 @@ def run_impl(c: Case):
             import pandas as pd
 
             ex = pd.Index(ex)
+        elif c.expected_kind == "range":
+            import pandas as pd
+
+            e = [int(x) for x in c.expected]
+            step = (e[1] - e[0]) if len(e) > 1 else 1
+            assert step != 0 and all(b - a == step for a, b in zip(e, e[1:])), "expected_kind='range' needs an arithmetic progression"
+            ex = pd.RangeIndex(e[0], e[-1] + step, step)
+            assert list(ex) == e
         kw["expected_groups"] = ex
     if c.fill is not None:
         kw["fill_value"] = c.fill
@@ -492,6 +500,10 @@ def gen_vals(rng: random.Random, n: int, dtype: str, stream: str):
             out.append(rng.choice([INF, -INF]))
         elif stream == "mixed" and r < 0.35:
             out.append(rng.choice([NAN, NAN, INF, -INF]))
+        elif stream == "infnan" and r < 0.85:
+            # mostly NaN and infinities of ONE sign per draw sequence: groups whose valid values are all +inf / all -inf,
+            # next to NaN - the cells in which an infinity can be mistaken for a sentinel
+            out.append(rng.choice([NAN, NAN, INF, INF, -INF, -INF]) if r < 0.5 else rng.choice([NAN, -INF] if n % 2 else [NAN, INF]))
         else:
             out.append(float(rng.choice(ALPHA_FINITE)))
     return out
